@@ -577,9 +577,9 @@ def main(tier, seed, workers):
     funcs_all = {}
     try:
         for engine in ("sync", "async"):
-            code, entry, funcs = bmc.compile_send(repo, engine, True)
+            code, entry, act_entry, funcs = bmc.compile_program(repo, engine, True)
             bmc.local_branches_equivalent(code)
-            listing[engine] = bmc.listing(code)
+            listing[engine] = [f"entry send=S{entry} activate_initial_state={'S' + str(act_entry) if isinstance(act_entry, int) else act_entry}"] + bmc.listing(code)
             funcs_all[engine] = funcs
         code, entry, _ = bmc.compile_send(repo, "sync", True)
         FLAG_MODE[0] = any(i.op in ("LTEST", "LSET") for i in code)
